@@ -124,7 +124,8 @@ def gen_cases(rng, tier, per_fn=None, pid=PID):
         for w, r in enumerate(res):
             fidx = r["result"]["files"]
             for i, ls in zip(range(w, len(flat), nw), r["result"]["lines"]):
-                lines[i] = frozenset((fidx[x // 10000000], x % 10000000) for x in ls)
+                lines[i] = (frozenset({("RAISED", -1)}) if ls == [-1] else
+                            frozenset((fidx[x // 10000000], x % 10000000) for x in ls))
     cases, stats = [], {}
     pos = 0
     for fn in pl.FUNCS:
@@ -139,6 +140,16 @@ def gen_cases(rng, tier, per_fn=None, pid=PID):
             for l in x:
                 freq[l] = freq.get(l, 0) + 1
         cov, sel, used_streams, left = {}, [], {}, set(range(len(pool)))
+        # (a) a stratified base: 24 pool cases spread evenly over the pool, i.e. over the streams in proportion to their
+        #     weights (classes of inputs that matter although they take no path of their own: nested, coincident, slicing
+        #     placements ...);  every pool case that RAISED in the interpreted tracing run;  (b) then path-guided additions
+        base = set(range(0, len(pool), max(1, len(pool) // 24))[:24]) | {i for i, x in enumerate(ls) if ("RAISED", -1) in x}
+        for b in sorted(base):
+            left.discard(b)
+            sel.append(b)
+            used_streams[pool[b]["stream"]] = used_streams.get(pool[b]["stream"], 0) + 1
+            for l in ls[b]:
+                cov[l] = cov.get(l, 0) + 1
         # n cases, then more (up to 2.5 n) while some line key seen in the pool is still uncovered
         while left and (len(sel) < n or (len(sel) < int(2.5 * n) and len(cov) < len(freq))):
             def score(i):
@@ -491,13 +502,21 @@ def run(tier, seed, replay=None):
     from . import c10corr
     R = cm.Run(PID, "proof", tier, seed)
     R.cov["rule"] = (
-        "case = (function of distance3d.distance.__all__, two well-formed primitives of domain P); streams: random general "
-        "position / far apart (centres up to 1e3) / lattice (24 axis permutations, one 45-degree turn or a 3-4-5 turn, sizes and "
-        "offsets from {1/4,1/2,1,2,4}) / touch (a special point of B moved onto a special point of A) / same (shared reference "
-        "point and frame, identical primitives) / rotlat (lattice placement moved by a random rigid motion); distinct by canonical "
-        "hash of the input; non-trivial = the call returned AND the case is not a plain general-position input at positive distance "
-        "(i.e. it comes from a structural stream -- lattice, touch, same, rotlat, shallow, small, coplanar, axis, corpus -- or is a contact "
-        "d == 0); branch_signatures = number of distinct (function, stream, d==0) classes; the model arms reached are in model_branch_coverage")
+        "case = (function of distance3d.distance.__all__, two well-formed primitives of domain P: feature sizes in [0.01, 100], centres "
+        "within 1e3); streams: random general position / far apart / lattice (24 axis permutations, one 45-degree turn or a 3-4-5 turn, "
+        "sizes and offsets from {1/4,1/2,1,2,4}; disk centres on the common line of the two planes) / touch (a special point of B moved "
+        "onto a special point of A) / same (shared reference point and frame, identical primitives) / rotlat (lattice placement moved by "
+        "a random rigid motion) / shallow (B turned by 1e-7..5e-3 rad, or the point a tiny offset off a special point / the axis: inside "
+        "the epsilon bands) / small (sizes 0.01..0.06) / coplanar (A built inside the plane of a planar B, incl. short corner-cutting "
+        "segments) / axis (point, line, segment exactly on the axis of circle, disk, cylinder, plane; incl. normals with a tiny z "
+        "component) / corpus.  Quick tier: 120 (360 for functions with many paths) stratified candidates per function are traced line by "
+        "line in an interpreted run and a stratified base of 24 + every candidate that raised + path-guided additions (rarely executed "
+        "lines first, axis-index permutations count as different lines) are kept: 36..90 per function; thorough: 600 per function, "
+        "weighted random mix.  Every case is additionally called a second time with the argument arrays of the previous call of that "
+        "function overwritten in place (call history).  distinct by canonical hash of the input; non-trivial = the call returned AND "
+        "the case is not a plain general-position input at positive distance (it comes from a structural stream or is a contact d == 0); "
+        "branch_signatures = number of distinct (function, stream, d==0) classes; model arms reached: model_branch_coverage; "
+        "implementation lines/branches reached: implementation_coverage")
     coqchk = coq_checker_planned()
     R.assumptions += [
         "theorems are about the Gallina model Model/DistPrim.v run in exact real arithmetic; float rounding is measured, not proved",
